@@ -129,6 +129,14 @@ func (k *Keeper) EthereumTx(goCtx context.Context, msg *evmtypes.MsgEthereumTx) 
 	receipt.GasUsed = response.GasUsed
 	receipt.BlockNumber = big.NewInt(ctx.BlockHeight())
 	receipt.TransactionIndex = uint(txIndex)
+	{
+		// log index is not part of the consensus encoding of the receipt:
+		// number the logs continuously through the block, after the logs of the earlier transactions
+		startLogIndex := k.GetCumulativeLogCountTransient(ctx, true)
+		for i, log := range receipt.Logs {
+			log.Index = uint(startLogIndex) + uint(i)
+		}
+	}
 
 	receiptSdkEvent, err := evmtypes.GetSdkEventForReceipt(
 		receipt, // receipt
